@@ -123,7 +123,8 @@ def corr_sim(ck, rng):
             # the 2-D simulation must equal the z-projection of a 3-D simulation tall enough to hold every fragment
             tall = (int(max(max(m[0][0] for m in ms) for _, ms in comps)) + 12, N[1], N[2])
             full = run_sim(tall, comps, order, scale)
-            ok = np.allclose(p2, full.sum(axis=0), atol=1e-3) if all(m[0][0] > -0.5 + (t.shape[0] - 1) / 2 for t, ms in comps for m in ms) else True
+            # (both clip a fragment that sticks out below z = 0, so molecules straddling the z = 0 face are compared too)
+            ok = np.allclose(p2, full.sum(axis=0), atol=1e-3)
             ck.oracle_count("projection_equals_sum_over_z", 1, 1)
             if not ok:
                 ck.violation(what="simulate_2d differs from the z-projection of simulate", inp=py, key={"site": "simulate_2d"}, oracle="projection_equals_sum_over_z")
